@@ -423,7 +423,16 @@ def allsky_scene(draw, theta_max, edges, ncat, need_z=()):
     if layout == "poles":
         centers = [(0.0, math.pi / 2), (0.0, -math.pi / 2)]
     else:
-        centers = draw(st.lists(sphere_point, min_size=2, max_size=6, unique=True))
+        drawn = draw(st.lists(sphere_point, min_size=2, max_size=6, unique=True))
+        # far apart by construction: a centre closer than 0.5 rad to an earlier one is dropped
+        centers = []
+        for c in drawn:
+            v = np.array([math.cos(c[0]) * math.cos(c[1]), math.sin(c[0]) * math.cos(c[1]), math.sin(c[1])])
+            if all(float(v @ u) < math.cos(0.5) for _, u in centers):
+                centers.append((c, v))
+        centers = [c for c, _ in centers]
+        if len(centers) < 2:
+            centers = [(0.0, math.pi / 2), (0.0, -math.pi / 2)]
     K = len(centers)
 
     def offset(p, sep, bearing):
@@ -458,7 +467,7 @@ def lattice_scene(draw, K, extra=20, ncat=1, edges=None, need_z=(), theta_max=No
     bulk (offsets, weights, which redshift) is expanded from a drawn seed with numpy, because
     thousands of individual draws exceed the size Hypothesis allows for one case."""
     base = draw(st.one_of(st.sampled_from(BASES), st.tuples(floats(0.0, 2 * math.pi - 1e-9), floats(-1.0, 1.0).map(math.asin))))
-    spacing = draw(loguniform(5e-4, 4e-3)) if theta_max is None else min(theta_max * draw(loguniform(0.5, 3.0)), 0.02)
+    spacing = draw(loguniform(5e-4, 4e-3)) if theta_max is None else min(theta_max * draw(loguniform(1.0, 4.0)), 0.04)
     rng = np.random.default_rng(draw(st.integers(0, 2**32 - 1)))
     cols = int(math.ceil(math.sqrt(K)))
     cxy = np.array([[(k % cols - cols / 2.0) * spacing, (k // cols - cols / 2.0) * spacing] for k in range(K)])
